@@ -55,10 +55,16 @@ def scenarios(tier):
                 if reps == 3 and tier == 'quick' and name.startswith('fwd-trunc') and name != 'fwd-trunc-20':
                     continue
                 clients = [dict(script=script, start_turn=(0 if i == 0 else 'idle')) for i in range(reps)]
+                # a client that leaves while the proxy still holds bytes it accepted for an upstream that does not
+                # take them: the proxy may keep trying to deliver them, and the connection is over when the idle
+                # timeout says so (virtual clock, --timeout 1) -- the census is taken after that
+                lingers = 'upstream-not-reading' in name
                 out.append(Scenario(
-                    '%s/%s/x%d' % (mode, name, reps), fa, flags_opts=fo, mode=mode, clients=clients,
+                    '%s/%s/x%d' % (mode, name, reps), fa_idle if lingers else fa, flags_opts=fo, mode=mode, clients=clients,
                     origins=origins, dns=dns, net=net, kinds='AF' if reps == 1 else 'F', horizon=900,
-                    features={'mode': mode, 'role': role, 'history': name, 'repetitions': reps},
+                    min_time=4.0 * reps if lingers else None,
+                    features=dict({'mode': mode, 'role': role, 'history': name, 'repetitions': reps},
+                                  **({'_sockbuf': 4096} if lingers else {})),
                     setup=_setup))
         # idle timeout: the client never closes, the reaper must (virtual clock)
         idle = [
@@ -82,17 +88,20 @@ def scenarios(tier):
     # the upstream connection pool (--enable-conn-pool) has its own release / bookkeeping paths
     for mode in ('local', 'remote'):
         fa, fo = c05.flags_for(mode)
+        fa_idle = fa + ['--timeout', '1']
         for (name, role, script, origins, dns, net) in c05.adversaries(tier):
             if role not in ('forward', 'tunnel') or (tier == 'quick' and name.startswith('fwd-trunc')) or \
                     script[-1][0] not in ('close', 'wait_eof'):
                 continue
             for reps in (1, 3):
                 clients = [dict(script=script, start_turn=(0 if i == 0 else 'idle')) for i in range(reps)]
+                lingers = 'upstream-not-reading' in name
                 out.append(Scenario(
-                    '%s/pool/%s/x%d' % (mode, name, reps), fa + ['--enable-conn-pool'], flags_opts=fo,
+                    '%s/pool/%s/x%d' % (mode, name, reps), (fa_idle if lingers else fa) + ['--enable-conn-pool'], flags_opts=fo,
                     mode=mode, clients=clients, origins=origins, dns=dns, net=net,
-                    kinds='F' if reps == 1 else '', horizon=900,
-                    features={'mode': mode, 'role': role, 'history': name, 'repetitions': reps, 'conn_pool': True},
+                    kinds='F' if reps == 1 else '', horizon=900, min_time=4.0 * reps if lingers else None,
+                    features=dict({'mode': mode, 'role': role, 'history': name, 'repetitions': reps, 'conn_pool': True},
+                                  **({'_sockbuf': 4096} if lingers else {})),
                     setup=_setup))
     # the shipped ProxyPoolPlugin opens its own upstream connection (to a pool endpoint) from before_upstream_connection
     for mode in ('local', 'remote'):
